@@ -172,3 +172,12 @@ func VerifImplies(a, b bool) bool { return !a || b }
 // VerifPanicSite names the innermost repo function in which the last panic caught by VerifPanics
 // was raised (engine only; used to give violations a stable class). Natively "".
 func VerifPanicSite() string { return "" }
+
+// VerifLiveGoroutines: goroutines of the program under test that have not finished
+// (engine: interpreted goroutines other than the caller; natively: runtime.NumGoroutine after a short settle time).
+func VerifLiveGoroutines() int {
+	for i := 0; i < 20; i++ {
+		runtimeGosched()
+	}
+	return runtimeNumGoroutine()
+}
